@@ -8,11 +8,7 @@ package access
 import (
 	"fmt"
 	"math"
-	"os"
-	"path/filepath"
-	"regexp"
 	"sort"
-	"strconv"
 	"strings"
 
 	"github.com/nspcc-dev/neo-go/pkg/neotest"
@@ -76,21 +72,13 @@ func updateBuilder(name string) builder {
 	}
 }
 
-// parseVersion reads major/minor/patch of common/version.go under root.
+// parseVersion evaluates common.Version of the sources under root (independent of how its components are called).
 func parseVersion(root string) int64 {
-	b, err := os.ReadFile(filepath.Join(root, "common", "version.go"))
+	v, err := chainx.SourceVersion(root)
 	if err != nil {
 		panic(err)
 	}
-	get := func(name string) int64 {
-		m := regexp.MustCompile(`(?m)^\s*` + name + `\s*=\s*(\d+)`).FindSubmatch(b)
-		if m == nil {
-			panic("version constant " + name + " not found")
-		}
-		v, _ := strconv.ParseInt(string(m[1]), 10, 64)
-		return v
-	}
-	return get("major")*1_000_000 + get("minor")*1_000 + get("patch")
+	return v
 }
 
 // ---- payment callbacks: direct call, through the probe, through real GAS / NEO transfers
